@@ -366,6 +366,9 @@ func (x *Exec) callBuiltin(b *ssa.Builtin, args []Value, site ssa.CallInstructio
 		}
 		return c.IntC(64, int64(n))
 	case "delete":
+		if x.spec > 0 {
+			panic(specAbort{"map delete inside a speculated block"})
+		}
 		m := args[0].(*MapV)
 		if m != nil {
 			m.del(x.keyOf(x.concreteKey(args[1])))
